@@ -1,11 +1,51 @@
 package main
 
+import (
+	"fmt"
+	"os"
+	"os/exec"
+	"path/filepath"
+	"strings"
+)
+
 type replayResult struct {
 	text      string
 	confirmed bool
 }
 
 // tryReplay turns a solver model into a concrete run against the real code where a recipe exists.
+// Model-to-test replay is not automated: models are over heap arrays and ghost state. The replay file carries the model.
 func tryReplay(prop string, o *Obligation) *replayResult {
 	return nil
+}
+
+func runReplay(path string) int {
+	b, err := os.ReadFile(path)
+	if err != nil {
+		fmt.Fprintln(os.Stderr, err)
+		return 2
+	}
+	fmt.Print(string(b))
+	// known findings with a replay test
+	var known []KnownFinding
+	loadJSON(filepath.Join(verifDir, "known_findings.json"), &known)
+	text := string(b)
+	for _, k := range known {
+		if k.Replay == "" {
+			continue
+		}
+		if k.Obligation != "" && strings.Contains(text, k.Obligation) {
+			parts := strings.SplitN(k.Replay, ":", 2)
+			if len(parts) == 2 {
+				fmt.Printf("\nreplay test for this obligation: %s in %s\n", parts[1], parts[0])
+				cmd := exec.Command(filepath.Join(verifDir, "tools", "replay.sh"), parts[0], "^"+parts[1]+"$")
+				cmd.Stdout = os.Stdout
+				cmd.Stderr = os.Stderr
+				if err := cmd.Run(); err != nil {
+					return 1
+				}
+			}
+		}
+	}
+	return 0
 }
